@@ -773,6 +773,65 @@ pub fn directed_other_known(seed: u64) -> Vec<ModelEvent> {
         ("null-in-seq", M::Seq(vec![M::None, M::U8(75), M::Unit, M::Str("x".into())])),
     ];
     let mut out = Vec::new();
+    // non-finite floats (JSON writes them as null): as an attribute - top level, inside a sequence,
+    // inside a map - and as a metric sample (scalar, gauge bucket, sum)
+    let nf_attr: Vec<(&str, M, Cap)> = vec![
+        ("nan", M::F64(f64::NAN), Cap::Typed),
+        ("inf-f32", M::F32(f32::INFINITY), Cap::Typed),
+        ("in-seq", M::Seq(vec![M::F64(1.5), M::F64(f64::NEG_INFINITY), M::I8(2)]), Cap::Serde),
+        ("in-map", M::Map(vec![(M::Str("a".into()), M::F64(f64::INFINITY)), (M::Str("b".into()), M::F64(0.25))]), Cap::Sval),
+    ];
+    for (i, (name, m, cap)) in nf_attr.into_iter().enumerate() {
+        for (j, kind) in [Kind::Log, Kind::Span, Kind::Metric].into_iter().enumerate() {
+            let vid = format!("v{}-directed-non-finite-attr-{}-{:?}", seed, name, kind);
+            let end = BASE_NANOS + 650_000_000_000 + (i * 3 + j) as u64;
+            let mut props = vec![Prop::new("vid", M::Str(vid.clone()), Cap::Typed), Prop::new("x", m.clone(), cap), Prop::new("after", M::F64(1.5), Cap::Typed)];
+            let extent = match kind {
+                Kind::Span => {
+                    props.push(Prop::new("evt_kind", M::Str("span".into()), Cap::Kind));
+                    Some((Some(end - 10), end))
+                }
+                Kind::Metric => {
+                    props.push(Prop::new("evt_kind", M::Str("metric".into()), Cap::Kind));
+                    props.push(Prop::new("metric_name", M::Str("nf".into()), Cap::Typed));
+                    props.push(Prop::new("metric_agg", M::Str("last".into()), Cap::Typed));
+                    props.push(Prop::new("metric_value", M::F64(2.5), Cap::Typed));
+                    Some((None, end))
+                }
+                Kind::Log => Some((None, end)),
+            };
+            out.push(ModelEvent { vid: vid.clone(), mdl: "c13".into(), parts: vec![(false, format!("{} known", vid))], extent, props, kind, directed: Some(format!("non-finite-attr:{}", name)), ambient: Vec::new(), clock: None, wild: None, macro_site: None });
+        }
+    }
+    let nf_points: Vec<(&str, M, Cap, &str)> = vec![
+        ("scalar-nan-gauge", M::F64(f64::NAN), Cap::Typed, "last"),
+        ("scalar-inf-count", M::F64(f64::INFINITY), Cap::Typed, "count"),
+        ("bucket-inf-gauge", M::Seq(vec![M::F64(1.0), M::F64(f64::INFINITY), M::F64(3.0)]), Cap::Serde, "max"),
+        ("sum-with-neg-inf", M::Seq(vec![M::F64(1.0), M::F64(f64::NEG_INFINITY)]), Cap::Sval, "sum"),
+    ];
+    for (i, (name, m, cap, agg)) in nf_points.into_iter().enumerate() {
+        let vid = format!("v{}-directed-non-finite-point-{}", seed, name);
+        out.push(ModelEvent {
+            vid: vid.clone(),
+            mdl: "c13".into(),
+            parts: vec![(false, format!("{} known", vid))],
+            extent: Some((Some(BASE_NANOS + 660_000_000_000 + i as u64), BASE_NANOS + 660_000_001_000 + i as u64)),
+            props: vec![
+                Prop::new("vid", M::Str(vid.clone()), Cap::Typed),
+                Prop::new("evt_kind", M::Str("metric".into()), Cap::Kind),
+                Prop::new("metric_name", M::Str("nf_point".into()), Cap::Typed),
+                Prop::new("metric_agg", M::Str(agg.into()), Cap::Typed),
+                Prop::new("metric_value", m, cap),
+                Prop::new("after", M::F64(1.5), Cap::Typed),
+            ],
+            kind: Kind::Metric,
+            directed: Some(format!("non-finite-point:{}", name)),
+            ambient: Vec::new(),
+            clock: None,
+            wild: None,
+            macro_site: None,
+        });
+    }
     for (i, (name, m)) in cases.into_iter().enumerate() {
         for (j, cap) in [Cap::Sval, Cap::Serde].into_iter().enumerate() {
             let vid = format!("v{}-directed-{}-{}", seed, name.replace(':', "-"), cap.name());
